@@ -266,13 +266,14 @@ func (l *lexer) acceptWS() {
 		l.backup()
 
 		if strings.HasPrefix(l.input[l.pos:], str_comment_start) {
+			// the end marker may not share its '*' with the start marker: "/*/" is still open
+			l.pos += len(str_comment_start)
 			for {
-				var r = l.next()
 				if strings.HasPrefix(l.input[l.pos:], str_comment_end) {
 					l.pos += len(str_comment_end)
 					break
 				}
-				if r == eof {
+				if l.next() == eof {
 					break
 				}
 			}
